@@ -424,6 +424,9 @@ func plainR(rv reflect.Value) any {
 	case reflect.Struct:
 		m := make(map[string]any, rv.NumField())
 		for i := 0; i < rv.NumField(); i++ {
+			if !rv.Type().Field(i).IsExported() {
+				continue // invisible to every evaluator (rv.CanInterface() is false)
+			}
 			name := rv.Type().Field(i).Tag.Get("json")
 			if name == "" {
 				name = strings.ToLower(rv.Type().Field(i).Name)
